@@ -1,0 +1,370 @@
+//! Last line of defence before a compiled story is handed out: every path
+//! written into the story document must lead somewhere in that document.
+//!
+//! The checks in `validator/` work on the parsed source, construct by
+//! construct. This pass works on the *emitted* container tree instead, so it
+//! does not depend on how a reference came to be written: it walks every
+//! container, finds every object that carries a path (`->`, `->t->`, `f()`,
+//! `CNT?`, `^->`, `*`) and follows that path with the rules the runtime uses
+//! (`Path::new_with_components_string`, `Object::resolve_path`,
+//! `Container::content_at_path`), except that nothing is approximated: a path
+//! either names an object of the tree or the story is refused.
+
+use std::collections::HashMap;
+
+use serde_json::{Map, Value};
+
+/// A path in the emitted story that leads nowhere.
+#[derive(Debug, Clone, PartialEq, Eq)]
+pub(crate) struct DanglingReference {
+    /// What kind of reference it is, in words.
+    pub kind: &'static str,
+    /// The path as written in the story document.
+    pub target: String,
+    /// Where the referring object sits (absolute runtime path).
+    pub location: String,
+    /// Why the path was refused.
+    pub reason: String,
+}
+
+impl std::fmt::Display for DanglingReference {
+    fn fmt(&self, f: &mut std::fmt::Formatter<'_>) -> std::fmt::Result {
+        write!(
+            f,
+            "{} '{}' not found: {} (referenced from '{}' of the compiled story)",
+            self.kind, self.target, self.reason, self.location
+        )
+    }
+}
+
+enum Slot<'a> {
+    Container(usize),
+    Leaf(&'a Value),
+}
+
+struct ContainerNode<'a> {
+    parent: Option<usize>,
+    /// Name or index under which the parent holds this container.
+    key: String,
+    content: Vec<Slot<'a>>,
+    named: HashMap<&'a str, usize>,
+}
+
+#[derive(Clone, Copy, PartialEq, Eq)]
+enum Found {
+    Container(usize),
+    Leaf,
+}
+
+enum Component<'a> {
+    Index(usize),
+    Parent,
+    Name(&'a str),
+}
+
+struct Tree<'a> {
+    nodes: Vec<ContainerNode<'a>>,
+}
+
+fn own_name(array: &[Value]) -> Option<&str> {
+    array
+        .last()?
+        .as_object()?
+        .get("#n")?
+        .as_str()
+        .filter(|name| !name.is_empty())
+}
+
+impl<'a> Tree<'a> {
+    /// Mirrors `jarray_to_container` + `Container::new`: all elements but the
+    /// last are content, the last one holds the named-only sub-containers, and
+    /// content containers that carry a `#n` are reachable by that name too.
+    fn build(root: &'a [Value]) -> Self {
+        let mut nodes = vec![ContainerNode {
+            parent: None,
+            key: String::new(),
+            content: Vec::new(),
+            named: HashMap::new(),
+        }];
+        let mut pending: Vec<(usize, &'a [Value])> = vec![(0, root)];
+
+        while let Some((index, array)) = pending.pop() {
+            let Some((terminator, content)) = array.split_last() else {
+                continue;
+            };
+
+            if let Value::Object(named) = terminator {
+                for (key, child) in named {
+                    if key == "#f" || key == "#n" {
+                        continue;
+                    }
+                    let Value::Array(child) = child else {
+                        continue;
+                    };
+                    let child_index = nodes.len();
+                    nodes.push(ContainerNode {
+                        parent: Some(index),
+                        key: key.clone(),
+                        content: Vec::new(),
+                        named: HashMap::new(),
+                    });
+                    nodes[index].named.insert(key.as_str(), child_index);
+                    pending.push((child_index, child));
+                }
+            }
+
+            for (position, element) in content.iter().enumerate() {
+                match element {
+                    Value::Array(child) => {
+                        let child_index = nodes.len();
+                        let name = own_name(child);
+                        nodes.push(ContainerNode {
+                            parent: Some(index),
+                            key: name
+                                .map(str::to_owned)
+                                .unwrap_or_else(|| position.to_string()),
+                            content: Vec::new(),
+                            named: HashMap::new(),
+                        });
+                        if let Some(name) = name {
+                            nodes[index].named.insert(name, child_index);
+                        }
+                        nodes[index].content.push(Slot::Container(child_index));
+                        pending.push((child_index, child));
+                    }
+                    leaf => nodes[index].content.push(Slot::Leaf(leaf)),
+                }
+            }
+        }
+
+        Self { nodes }
+    }
+
+    fn location(&self, container: usize, position: usize) -> String {
+        let mut keys = vec![position.to_string()];
+        let mut current = container;
+        while let Some(parent) = self.nodes[current].parent {
+            keys.push(self.nodes[current].key.clone());
+            current = parent;
+        }
+        keys.reverse();
+        keys.join(".")
+    }
+
+    /// `Container::content_at_path`, without the approximation.
+    fn follow(&self, start: usize, components: &[Component<'_>]) -> Result<Found, String> {
+        let mut current = Found::Container(start);
+
+        for component in components {
+            let Found::Container(container) = current else {
+                return Err("a component of the path is not a container".to_owned());
+            };
+            let node = &self.nodes[container];
+            current = match component {
+                Component::Index(index) => match node.content.get(*index) {
+                    Some(Slot::Container(child)) => Found::Container(*child),
+                    Some(Slot::Leaf(_)) => Found::Leaf,
+                    None => {
+                        return Err(format!(
+                            "index {index} is beyond the {} elements of its container",
+                            node.content.len()
+                        ));
+                    }
+                },
+                Component::Parent => match node.parent {
+                    Some(parent) => Found::Container(parent),
+                    None => return Err("the path climbs above the root".to_owned()),
+                },
+                Component::Name(name) => match node.named.get(name) {
+                    Some(child) => Found::Container(*child),
+                    None => return Err(format!("there is no container named '{name}' there")),
+                },
+            };
+        }
+
+        Ok(current)
+    }
+}
+
+/// `Path::new_with_components_string`: a leading dot makes the path relative,
+/// a component that reads as an unsigned number is an index, `^` is the
+/// parent, anything else is a name.
+fn parse_path(text: &str) -> (bool, Vec<Component<'_>>) {
+    let (relative, text) = match text.strip_prefix('.') {
+        Some(rest) => (true, rest),
+        None => (false, text),
+    };
+    let components = text
+        .split('.')
+        .map(|component| match component.parse::<usize>() {
+            Ok(index) => Component::Index(index),
+            Err(_) if component == "^" => Component::Parent,
+            Err(_) => Component::Name(component),
+        })
+        .collect();
+    (relative, components)
+}
+
+struct Reference<'a> {
+    kind: &'static str,
+    target: &'a str,
+    /// `^->` values are looked up from the root whatever they look like.
+    always_from_root: bool,
+    /// Read counts and choice points need a container, not just any object.
+    needs_container: bool,
+}
+
+fn references_of<'a>(object: &'a Map<String, Value>, after_thread: bool) -> Vec<Reference<'a>> {
+    // Same precedence as `jtoken_to_runtime_object`: the first key that
+    // matches decides what the object is.
+    let text = |key: &str| object.get(key).and_then(Value::as_str);
+    let reference = |kind, target, always_from_root, needs_container| Reference {
+        kind,
+        target,
+        always_from_root,
+        needs_container,
+    };
+
+    if object.contains_key("^->") {
+        return text("^->")
+            .map(|target| vec![reference("divert target value", target, true, false)])
+            .unwrap_or_default();
+    }
+    if object.contains_key("^var") {
+        return Vec::new();
+    }
+    for (key, kind) in [
+        ("->", "divert target"),
+        ("f()", "function call target"),
+        ("->t->", "tunnel target"),
+    ] {
+        if object.contains_key(key) {
+            if object.contains_key("var") {
+                return Vec::new();
+            }
+            let kind = if key == "->" && after_thread {
+                "thread target"
+            } else {
+                kind
+            };
+            return text(key)
+                .map(|target| vec![reference(kind, target, false, false)])
+                .unwrap_or_default();
+        }
+    }
+    if object.contains_key("x()") {
+        return Vec::new();
+    }
+    if object.contains_key("*") {
+        return text("*")
+            .map(|target| vec![reference("choice target", target, false, true)])
+            .unwrap_or_default();
+    }
+    if object.contains_key("VAR?") {
+        return Vec::new();
+    }
+    if object.contains_key("CNT?") {
+        return text("CNT?")
+            .map(|target| vec![reference("read count target", target, false, true)])
+            .unwrap_or_default();
+    }
+    Vec::new()
+}
+
+/// Check every reference of a story document (`{"inkVersion":…,"root":[…],…}`).
+pub(crate) fn check_story_references(document: &Value) -> Result<(), DanglingReference> {
+    let Some(root) = document.get("root").and_then(Value::as_array) else {
+        return Ok(());
+    };
+    let tree = Tree::build(root);
+
+    for (container, node) in tree.nodes.iter().enumerate() {
+        let mut after_thread = false;
+        for (position, slot) in node.content.iter().enumerate() {
+            let Slot::Leaf(leaf) = slot else {
+                after_thread = false;
+                continue;
+            };
+            let was_after_thread = after_thread;
+            after_thread = leaf.as_str() == Some("thread");
+            let Value::Object(object) = leaf else {
+                continue;
+            };
+
+            for reference in references_of(object, was_after_thread) {
+                let dangling = |reason: String| DanglingReference {
+                    kind: reference.kind,
+                    target: reference.target.to_owned(),
+                    location: tree.location(container, position),
+                    reason,
+                };
+
+                if reference.target.is_empty() {
+                    return Err(dangling("the path is empty".to_owned()));
+                }
+                let (relative, components) = parse_path(reference.target);
+
+                // `Object::resolve_path`: a relative path starts at the object
+                // itself, so its first step must be the one up to the
+                // container holding the object.
+                let found = if relative && !reference.always_from_root {
+                    match components.split_first() {
+                        Some((Component::Parent, rest)) => tree.follow(container, rest),
+                        _ => Err("a relative path must start with '^'".to_owned()),
+                    }
+                } else {
+                    tree.follow(0, &components)
+                }
+                .map_err(dangling)?;
+
+                if reference.needs_container && found == Found::Leaf {
+                    return Err(dangling("the path does not lead to a container".to_owned()));
+                }
+            }
+        }
+    }
+
+    Ok(())
+}
+
+/// Best guess at the source line a dangling target was written on: the target
+/// (or its last name) must be made of authored names only and be mentioned on
+/// exactly one line of `source`. Anything less certain gives no line at all.
+pub(crate) fn source_line_of(source: &str, target: &str) -> Option<usize> {
+    fn is_name_char(ch: char) -> bool {
+        ch.is_alphanumeric() || ch == '_'
+    }
+    fn mentions(line: &str, name: &str) -> bool {
+        line.match_indices(name).any(|(start, matched)| {
+            let before = line[..start].chars().next_back();
+            let after = line[start + matched.len()..].chars().next();
+            !before.is_some_and(|ch| is_name_char(ch) || ch == '.')
+                && !after.is_some_and(|ch| is_name_char(ch) || ch == '.')
+        })
+    }
+
+    let written = target.strip_prefix('.').unwrap_or(target);
+    let authored = |name: &str| {
+        !name.is_empty()
+            && name.chars().all(is_name_char)
+            && !name.chars().all(|ch| ch.is_ascii_digit())
+    };
+    if written.is_empty() || !written.split('.').all(authored) {
+        return None;
+    }
+
+    let last_name = written.rsplit('.').next().unwrap_or(written);
+    for name in [written, last_name] {
+        let mut lines = source
+            .lines()
+            .enumerate()
+            .filter(|(_, line)| mentions(line, name))
+            .map(|(index, _)| index + 1);
+        match (lines.next(), lines.next()) {
+            (Some(line), None) => return Some(line),
+            (Some(_), Some(_)) => return None,
+            _ => {}
+        }
+    }
+    None
+}
